@@ -61,11 +61,20 @@ Theorem C34_attempts_start_in_window : forall timeout H delays script rs,
 Proof. exact model_calls_ok. Qed.
 Print Assumptions C34_attempts_start_in_window.
 
-(* Full statement:  forall i rs, monitor i (model i rs) = true.
-   Proved here for the add_jitter inputs (J); for the staggered-lookup inputs (S)
-   the start-time half of the monitor is C34_attempts_start_in_window and the
-   result half (result_ok on the model's own calls) is not proved, see notes. *)
-Theorem C34_model_satisfies_monitor_partial : forall d k rs,
-  monitor (J d k) (model (J d k) rs) = true.
-Proof. exact model_monitor_J. Qed.
-Print Assumptions C34_model_satisfies_monitor_partial.
+(* The timed model's result is accepted by the result half of the monitor: for sorted
+   start times and any script of non-panicking answers, what `timed_result` computes from
+   the stable sort by completion time is the earliest visible success / all errors in
+   completion order / undecided at the horizon, as `result_ok` demands of an observed run. *)
+Theorem C34_model_result_ok : forall timeout H script ss,
+  sorted ss = true ->
+  forallb (fun e => negb (is_panic (snd e))) script = true ->
+  let cs := completions timeout ss script in
+  let D := decision_time H cs in
+  result_ok timeout H (length ss) script (filter (fun s => s <=? D) ss) (timed_result H cs) = true.
+Proof. exact model_result_ok. Qed.
+Print Assumptions C34_model_result_ok.
+
+(* The model's output satisfies the monitor for every input and every choice of the random values. *)
+Theorem C34_model_satisfies_monitor : forall i rs, monitor i (model i rs) = true.
+Proof. exact model_monitor. Qed.
+Print Assumptions C34_model_satisfies_monitor.
